@@ -3,6 +3,7 @@ From Coq Require Import List NArith ZArith Bool Arith String.
 Import ListNotations.
 Require Import CostScan CostLemmas.
 Require Scan ParseL PT ParserSafe ParserTerm.
+Require Emit EmitLemmas EmitQueue.
 
 (* KIND C20_catalogue_doubling : F *)
 (* the property's own quantifier is a finite catalogue x sizes n, 2n, 4n: for the 15 scanner-bound load families the number of reader-primitive calls of the scanner
@@ -19,6 +20,16 @@ Theorem C20_parser_work_linear : forall t r, Scan.t_kind t = Scan.TStreamStart -
 Proof. exact ParserTerm.parser_work_linear. Qed.
 Eval vm_compute in "ASSUME:C20_parser_work_linear"%string. Print Assumptions C20_parser_work_linear.
 
+(* KIND C20_emit_queue_bounded : U *)
+(* dump side, for EVERY event list and option set: whenever emit() has returned, at most three events wait in the emitter's queue (the look-ahead
+   of a mapping start), no event is in hand and the cached analysis is empty - the emitter never accumulates events, so its work per call is
+   bounded by the event it handles *)
+Theorem C20_emit_queue_bounded : forall evs canon allow_uni ind width lb s',
+  EmitLemmas.emit_state evs (Emit.init canon allow_uni ind width lb) = inl s' ->
+  (List.length (Emit.events s') <= 3)%nat /\ Emit.cur_ev s' = None /\ Emit.anal s' = None /\ Emit.sty s' = None.
+Proof. exact EmitQueue.emit_queue_bounded. Qed.
+Eval vm_compute in "ASSUME:C20_emit_queue_bounded"%string. Print Assumptions C20_emit_queue_bounded.
+
 (* PARTIAL: the cost model covers the scanner only (exact for prefix/forward, within 15% for peek, checked by the cost correspondence against sys.setprofile counts);
    composer, constructor, representer, serializer and emitter work, the parser's work per step, and the remaining families are decided by the direct measurement of interpreter-level
-   calls on the implementation at n, 2n, 4n.  The general claim "no family is super-linear" is not a theorem; simple_key_window / emit_queue_bounded are not proved. *)
+   calls on the implementation at n, 2n, 4n.  The general claim "no family is super-linear" is not a theorem; simple_key_window is not proved. *)
